@@ -1,73 +1,144 @@
-//! C01 probe (temporary first version): run queries from a file against a fixed small graph.
-use samyama::graph::{GraphStore, Label, PropertyValue};
-use samyama::query::{QueryEngine, Value};
-use std::collections::HashMap;
+//! C01 — read queries return exactly the rows openCypher semantics define.
+//!
+//! Differential correspondence: random small property graphs are built in a `GraphStore`,
+//! queries are generated from a typed grammar of the fragment, rendered to Cypher text for the
+//! engine and to a Gallina AST for the reference semantics (coq/model/Cypher.v) from the same
+//! generator value. The engine's rows are canonicalised and embedded in the case; coqc decides
+//! whether they are the rows the reference semantics defines (`Cypher.check_case`).
+#[path = "../cygen.rs"]
+mod cygen;
+use cygen::*;
+use samyama::query::QueryEngine;
+use std::collections::{BTreeMap, BTreeSet};
 use vh::*;
 
-fn show(v: &Value) -> String {
-    match v {
-        Value::Node(id, _) | Value::NodeRef(id) => format!("N{}", id.as_u64()),
-        Value::Edge(id, _) => format!("R{}", id.as_u64()),
-        Value::EdgeRef(id, ..) => format!("R{}", id.as_u64()),
-        Value::Property(p) => format!("{:?}", p),
-        Value::Path { nodes, edges } => format!(
-            "P{:?}/{:?}",
-            nodes.iter().map(|n| n.as_u64()).collect::<Vec<_>>(),
-            edges.iter().map(|n| n.as_u64()).collect::<Vec<_>>()
-        ),
-        Value::List(l) => format!("L[{}]", l.iter().map(show).collect::<Vec<_>>().join(", ")),
-        Value::Map(m) => format!("M{{{}}}", m.iter().map(|(k, v)| format!("{}: {}", k, show(v))).collect::<Vec<_>>().join(", ")),
-        Value::Null => "NULL".to_string(),
-    }
-}
-
-fn main() {
-    quiet_panics();
-    let path = std::env::var("C01_PROBE").expect("C01_PROBE");
-    let mut store = GraphStore::new();
-    let mk = |store: &mut GraphStore, labels: &[&str], props: &[(&str, PropertyValue)]| {
-        let mut m = HashMap::new();
-        for (k, v) in props {
-            m.insert(k.to_string(), v.clone());
-        }
-        store.create_node_with_properties("default", labels.iter().map(|l| Label::new(*l)).collect(), m)
-    };
-    let n0 = mk(&mut store, &["A"], &[("x", PropertyValue::Integer(1)), ("s", PropertyValue::String("a".into()))]);
-    let n1 = mk(&mut store, &["A", "B"], &[("x", PropertyValue::Integer(2))]);
-    let n2 = mk(&mut store, &["B"], &[("x", PropertyValue::String("a".into()))]);
-    let n3 = mk(&mut store, &[], &[("x", PropertyValue::Boolean(true)), ("y", PropertyValue::Array(vec![PropertyValue::Integer(1), PropertyValue::Integer(2)]))]);
-    let e = |store: &mut GraphStore, a, b, t: &str, props: &[(&str, PropertyValue)]| {
-        let mut m = HashMap::new();
-        for (k, v) in props {
-            m.insert(k.to_string(), v.clone());
-        }
-        store.create_edge_with_properties(a, b, t, m).unwrap()
-    };
-    e(&mut store, n0, n1, "R", &[("w", PropertyValue::Integer(1))]);
-    e(&mut store, n0, n1, "R", &[("w", PropertyValue::Integer(2))]);
-    e(&mut store, n1, n2, "S", &[]);
-    e(&mut store, n2, n2, "R", &[]);
-    e(&mut store, n2, n0, "T", &[]);
-    e(&mut store, n3, n0, "R", &[]);
+fn probe(path: &str) {
+    let g = fixed_graph();
+    let (store, g) = build_store(&g);
+    println!("graph: {}", g_graph(&g));
     let text = std::fs::read_to_string(path).unwrap();
     for q in text.lines() {
         let q = q.trim();
         if q.is_empty() || q.starts_with('#') {
             continue;
         }
-        let engine = QueryEngine::new();
-        let r = catch(std::panic::AssertUnwindSafe(|| engine.execute(q, &store).map_err(|e| e.to_string())));
         println!("Q: {}", q);
-        match r {
-            Err(p) => println!("   PANIC {}", p),
-            Ok(Err(e)) => println!("   ERR {}", e),
-            Ok(Ok(b)) => {
-                println!("   cols {:?}", b.columns);
-                for rec in &b.records {
-                    let row: Vec<String> = b.columns.iter().map(|c| rec.get(c).map(show).unwrap_or("<missing>".into())).collect();
-                    println!("   {}", row.join(" | "));
+        match run_engine(&store, q, &[]) {
+            Obs::Panic(p) => println!("   PANIC {}", p),
+            Obs::Err(e) => println!("   ERR {}", e),
+            Obs::Ok(rows) => {
+                for r in rows {
+                    println!("   {}", r.iter().map(|v| format!("{:?}", v)).collect::<Vec<_>>().join(" | "));
                 }
             }
         }
     }
+}
+
+fn load_corpus() -> BTreeSet<String> {
+    let mut s = BTreeSet::new();
+    if let Ok(t) = std::fs::read_to_string("/verif/corpus/C01/supported.jsonl") {
+        for l in t.lines() {
+            if let Ok(v) = serde_json::from_str::<serde_json::Value>(l) {
+                if let Some(sh) = v.get("shape").and_then(|x| x.as_str()) {
+                    s.insert(sh.to_string());
+                }
+            }
+        }
+    }
+    s
+}
+
+fn main() {
+    quiet_panics();
+    if let Ok(p) = std::env::var("C01_PROBE") {
+        probe(&p);
+        return;
+    }
+    let args = parse_args();
+    let corpus = load_corpus();
+    let mut out = Out::new(&args, "From Verif Require Import CypherCore Cypher.", "Cypher.case", "Cypher.check_case", 125);
+    out.rule = "random property graphs (<=6 nodes, <=10 relationships, multi-edges, self-loops, 0-3 labels, \
+                mixed-type and missing properties) x queries from a typed grammar of the fragment (MATCH / OPTIONAL \
+                MATCH with labels, types, directions, inline properties, variable length; WHERE; WITH; UNWIND; \
+                RETURN [DISTINCT]; aggregates; ORDER BY; SKIP; LIMIT; UNION [ALL]); ~15% of expressions carry an \
+                ill-typed subterm. Non-trivial = the engine returned at least one row or an error; distinct by \
+                (graph, query) text."
+        .to_string();
+    let n = if args.thorough { 24000 } else { 2000 };
+    // shape -> (ok, err) observed in this run, for corpus recording
+    let mut shapes: BTreeMap<String, (u64, u64)> = BTreeMap::new();
+    let engine = QueryEngine::new();
+    let _ = &engine;
+    let mut graph_cache: Option<(u64, samyama::graph::GraphStore, Graph)> = None;
+    for c in 0..n {
+        // one graph serves 4 consecutive queries
+        let gi = c / 4;
+        if graph_cache.as_ref().map(|x| x.0) != Some(gi) {
+            let mut gr = Rng::for_case(args.seed ^ 0x5151, gi);
+            let g0 = gen_graph(&mut gr);
+            let (store, g) = build_store(&g0);
+            graph_cache = Some((gi, store, g));
+        }
+        let (_, store, g) = graph_cache.as_ref().unwrap();
+        let mut r = Rng::for_case(args.seed, c);
+        let mut cx = Gen::new(&mut r, g, false);
+        let q = cx.gen_query();
+        let feats = cx.features.clone();
+        let text = render_query(&q);
+        let shape = shape_of(&q);
+        let idx = out.next_index();
+        if !out.wants(idx) {
+            out.skip();
+            continue;
+        }
+        let obs = run_engine(store, &text, &[]);
+        let must_ok = corpus.contains(&shape);
+        let e = shapes.entry(shape.clone()).or_insert((0, 0));
+        match &obs {
+            Obs::Ok(_) => e.0 += 1,
+            _ => e.1 += 1,
+        }
+        for f in &feats {
+            out.count(f);
+        }
+        match &obs {
+            Obs::Ok(rows) => {
+                out.count("engine_ok");
+                if !rows.is_empty() {
+                    out.count("engine_ok_nonempty");
+                }
+            }
+            Obs::Err(_) => out.count("engine_err"),
+            Obs::Panic(_) => out.count("engine_panic"),
+        }
+        if must_ok {
+            out.count("shape_in_corpus");
+        }
+        let human = format!("graph={} query={} obs={}", human_graph(g), text, human_obs(&obs)).replace('\n', " ");
+        let gal = format!(
+            "(Case {} [] {} {} {})",
+            g_graph(g),
+            g_query(&q),
+            g_bool(must_ok),
+            g_obs(&obs)
+        );
+        let nontrivial = !matches!(&obs, Obs::Ok(rows) if rows.is_empty());
+        let i = out.case(gal, human.clone(), nontrivial);
+        // the property's own predicates, evaluated directly on the implementation
+        if let Obs::Panic(p) = &obs {
+            out.fail(i, &human, &format!("the engine panicked: {}", p), None);
+        } else if let Some(d) = direct_predicates(g, &q, &obs) {
+            out.fail(i, &human, &d, None);
+        }
+    }
+    if let Ok(p) = std::env::var("C01_RECORD") {
+        let mut s = String::new();
+        for (k, (ok, err)) in &shapes {
+            s.push_str(&format!("{}\t{}\t{}\n", ok, err, k));
+        }
+        std::fs::write(p, s).unwrap();
+    }
+    out.count_n("distinct_shapes", shapes.len() as u64);
+    out.finish();
 }
